@@ -204,9 +204,14 @@ pub fn deep_small_scope(prop: &str, kinds: &[Kind], tier: &str, acc: &mut Acc, b
             Scope::new(2, 6, 3, o, 0, 0),
             Scope::new(3, 4, 3, o, 0, 0),
             Scope::new(2, 4, 5, Order::Sets, 0, 0),
+            Scope::new(3, 3, 4, Order::Sets, 0, 0),
         ]
     } else {
-        vec![Scope::new(2, 5, 3, o, 0, 0), Scope::new(2, 4, 4, Order::Sets, 0, 0), Scope::new(3, 3, 3, Order::Sets, 0, 0)]
+        vec![
+            Scope::new(2, 5, 3, o, 0, 0),
+            Scope::new(2, 4, 4, Order::Sets, 0, 0),
+            Scope::new(2, 3, 6, Order::Sets, 0, 0),
+        ]
     };
     let emb = vec![enumr::Emb::bytes("abc", b"abc")];
     for scope in &scopes {
